@@ -28,6 +28,14 @@ Processors of the same exact type listed twice: the later one replaces the earli
 listed processor that is not followed by one of the same exact type must be present, whatever the
 inheritance relations between the listed types are.
 
+A load that fails (a reference that cannot be resolved yet, a constructor that raises) is not
+judged itself, but it must not leave anything behind: whatever `handle()` returns afterwards —
+with the cause repaired or gone — is held to the full statement (exact content, nothing dispatched
+before enabling, then on_add / on_world_load), and a world object that `handle()` returned before
+must not come back after the handle was cleared (clause stale-world).  After a failed load the
+oracle no longer knows which resources were loaded on the way, so it only insists on the handle id
+of a loaded resource (`R<hid>.*`), not on the load counter.
+
 What it leaves open (nothing is demanded, whatever happens is accepted):
   * strings that begin with a marker but are not exactly marker + name + "}" with a name free of
     "}" and newline (DESIGN section 2),
@@ -35,7 +43,8 @@ What it leaves open (nothing is demanded, whatever happens is accepted):
     handle outside a resource tree, the path of the world itself): the load may fail, any way,
   * descriptions that are not well formed (a default processor type listed again, repeated component
     type in one entity, clashing identifiers),
-  * loads that follow a load the statement does not cover.
+  * loads that follow a successful load the statement does not cover (marker-prefixed free-form
+    arguments may have loaded anything).
 """
 from harness.models.loader import Scenario, Ref, parse_val, parse_args, ent_id, show_id, show_json, dec
 
@@ -143,6 +152,8 @@ def val_str(v):
 
 
 def same(a, b):
+    if isinstance(a, Ref) and a.tok.endswith('.*'):
+        return isinstance(b, Ref) and b.tok.startswith(a.tok[:-1])
     return type(a) is type(b) and a == b and (
         not isinstance(a, (list, dict)) or val_str(a) == val_str(b))
 
@@ -196,7 +207,11 @@ class TreeAccount:
         self.tree = sc.tree_table()
         self.cached, self.counts = {}, {}
 
+    uncertain = False       # a failed load may have loaded some resources on its way
+
     def gen_of(self, hid):
+        if self.uncertain:
+            return '*'
         return self.cached.get(hid, self.counts.get(hid, 0) + 1)
 
     def called(self, hids):
@@ -231,30 +246,51 @@ def oracle(lines, obs, pid='C15'):
     acct = TreeAccount(sc)
     sc.gen_of = acct.gen_of
     blocks = split_blocks(obs)
-    k = 0
     steps = list(sc.steps)
-    while True:
-        if k >= len(blocks):
-            return []
-        sc.touched = set()
-        verdict, go_on = check_load(sc, acct.tree, blocks[k], pid, k + 1)
-        if verdict or not go_on:
-            return verdict
-        acct.called(sorted(sc.touched))
+    k = 0
+    kind = 'direct' if sc.mode == 'direct' else 'call'
+    handle_has_world = False        # the world handle returned a world and was not cleared since
+    while k < len(blocks):
+        block = blocks[k]
+        if kind == 'reload':
+            handle_has_world = False
+        res = next((ln for ln in block if ln.startswith('res ')), None)
+        if res == 'res same-world':
+            if not (kind == 'call' and handle_has_world):
+                return [{'sig': f'{pid}:stale-world', 'what': f'load {k + 1} ({kind}): handle() returned a world '
+                         'object it had returned before, though the handle was cleared or is another handle'}]
+            status = 'ok'
+        else:
+            sc.touched = set()
+            verdict, status = check_load(sc, acct.tree, block, pid, k + 1)
+            if verdict:
+                return verdict
+            if status == 'stop':
+                return []
+            if status == 'failed':
+                acct.uncertain = True
+            else:
+                acct.called(sorted(sc.touched))
+                if kind in ('call', 'reload'):
+                    handle_has_world = True
         while steps and steps[0][0] in ('clear', 'replace'):
             acct.step(steps.pop(0))
         if not steps:
             return []
-        steps.pop(0)
+        kind = steps.pop(0)[0]
         k += 1
+    return []
 
 
 def check_load(sc, tree, obs, pid, nth):
-    """one load against the statement -> (violations, later loads are still covered)"""
+    """one load against the statement -> (violations, 'ok' | 'failed' | 'stop')
+    ok: covered and the oracle's account of the tree is exact; failed: the load raised and that is
+    not held against it; stop: later loads cannot be judged"""
     names = sc.name_table()
     o = parse_obs(obs)
     if o['res'] is None:
-        return [], False          # nothing but rx lines
+        return [], 'stop'          # nothing but rx lines
+    raised = o['res'] != 'ok'
     where = '' if nth == 1 else f'load {nth}: '
 
     def V(clause, what):
@@ -263,26 +299,27 @@ def check_load(sc, tree, obs, pid, nth):
         procs = [expected_item(sc, p, names, tree) for p in sc.procs]
         ents = [[expected_item(sc, c, names, tree) for c in comps] for _, comps in sc.ents]
     except Unresolvable:
-        return [], False
+        return [], ('failed' if raised else 'stop')
     for cid, _, _ in procs:
         if sc.classes.get(cid, ('?',))[0] != 'proc':
-            return [], False
+            return [], 'stop'
     if not well_formed(sc, procs, ents):
-        return [], False
-    free = any(kind == 'free' for it in procs + [c for e in ents for c in e]
-               for _, kind in it[1] + list(it[2].values()))
-    if o['res'] != 'ok':
-        if free:
-            return [], False
+        return [], 'stop'
+    items = procs + [c for e in ents for c in e]
+    free = any(kind == 'free' for it in items for _, kind in it[1] + list(it[2].values()))
+    ctor_may_raise = any(sc.raises.get(it[0]) for it in items)
+    if raised:
+        if free or ctor_may_raise:
+            return [], 'failed'
         cause = ''
         if sc.mode == 'file' and uncopyable_refs(sc, names):
             cause = ':uncopyable-object'
         elif sc.mode == 'file' and not sc.intree:
             cause = ':handle-outside-tree'
         return V('load-raised' + cause,
-                 f'every reference of the description can be resolved, yet loading {o["res"]}'), False
+                 f'every reference of the description can be resolved, yet loading {o["res"]}'), 'stop'
     out = check_world(sc, o, procs, ents, V)
-    return (out[:1] if out else []), not free
+    return (out[:1] if out else []), ('stop' if free else 'ok')
 
 
 def check_world(sc, o, procs, ents, V):
